@@ -2,6 +2,7 @@ package main
 
 import (
 	"fmt"
+	"go/token"
 	"go/types"
 	"strings"
 
@@ -134,7 +135,56 @@ func checkC11(p *Prog, r *Result, tier string) {
 		for _, u := range x.Undecided {
 			r.Report("ENGINE", FuncName(ctl), u, Undecided, u, "", nil, false)
 		}
-		if seenRet {
+		// the miss edge must go straight to the corruption report: some branch inside the loop has a successor block
+		// that loads the corruption sentinel and returns, and that block is reached directly from a branch on a
+		// membership test (a map lookup or a boolean call), not through a further condition that could skip it
+		direct := false
+		for _, b := range lp.blocks {
+			ifi, ok := b.Instrs[len(b.Instrs)-1].(*ssa.If)
+			if !ok {
+				continue
+			}
+			cond := ifi.Cond
+			if u, ok := cond.(*ssa.UnOp); ok && u.Op == token.NOT {
+				cond = u.X
+			}
+			if ex, ok := cond.(*ssa.Extract); ok {
+				cond = ex.Tuple
+			}
+			isMembership := false
+			switch cv := cond.(type) {
+			case *ssa.Lookup:
+				isMembership = true
+			case *ssa.Call:
+				if f := cv.Call.StaticCallee(); f != nil && inSod(p, f) && f.Signature.Results().Len() == 1 {
+					if bt, ok := f.Signature.Results().At(0).Type().Underlying().(*types.Basic); ok && bt.Info()&types.IsBoolean != 0 {
+						isMembership = true
+					}
+				}
+			}
+			if !isMembership {
+				continue
+			}
+			for _, sb := range b.Succs {
+				hasSentinel, returns := false, false
+				for _, in := range sb.Instrs {
+					if ld, ok := in.(*ssa.UnOp); ok {
+						if g, ok := ld.X.(*ssa.Global); ok && g.Object() == a.SentByName["ErrIndexCorrupted"] {
+							hasSentinel = true
+						}
+					}
+					if _, ok := in.(*ssa.Return); ok {
+						returns = true
+					}
+				}
+				if hasSentinel && returns {
+					direct = true
+				}
+			}
+		}
+		if seenRet && !direct {
+			r.Report("C11.R1", FuncName(ctl), construct, Violated, "a membership miss in this loop does not lead straight to the corruption report: a further condition sits between the miss and the report, so some divergences of this kind are tolerated silently", p.Pos(lp.header.Instrs[0].Pos()), nil, true)
+		} else if seenRet {
 			r.Report("C11.R1", FuncName(ctl), construct, Discharged, "", p.Pos(lp.header.Instrs[0].Pos()), nil, true)
 		} else {
 			r.Report("C11.R1", FuncName(ctl), construct, Violated, "no iteration of this loop can return ErrIndexCorrupted after the membership lookup: a divergence in this direction goes unnoticed", p.Pos(lp.header.Instrs[0].Pos()), nil, true)
@@ -421,6 +471,23 @@ func checkC17(p *Prog, r *Result, tier string) {
 					l.ok("C17.R2", fn, "publication gated by control", l.p.Pos(ev.Instr.Pos()))
 				} else {
 					l.bad("C17.R2", fn, "publication gated by control", "the loaded schema is published without a successful control (structure check) or a corrupted-index verdict", l.p.Pos(ev.Instr.Pos()), x, st, ev.Instr)
+				}
+			}}
+		}, nil)
+	}
+	// inside the control the structure comparison comes first: no index-corruption verdict and no directory listing
+	// on a path that has not passed it (otherwise the loader, which tolerates corruption, would publish a changed struct)
+	if ctl := p.FuncByName("Schema.control"); ctl != nil {
+		exploreAll(p, c, []exploreJob{{ctl, Valuation{}}}, effs(EOkCompat), r, func(j exploreJob) Listener {
+			return &effListener{p: p, r: r, root: j.root, val: j.val, onEvent: func(l *effListener, x *Explorer, st *State, ev *Event) {
+				if ev.Kind != EvEffect || (ev.Eff != EErrCorrupted && ev.Eff != EFsReadDir) {
+					return
+				}
+				construct := "structure comparison before " + ev.Eff.String()
+				if st.must.Has(EOkCompat) {
+					l.ok("C17.R2", FuncName(ctl), construct, l.p.Pos(ev.Instr.Pos()))
+				} else {
+					l.bad("C17.R2", FuncName(ctl), construct, "the control reaches "+ev.Eff.String()+" on a path where the stored descriptors were not yet compared with the struct: a collection whose struct changed AND whose index is out of step is reported as merely corrupted, which the loader tolerates and caches, so every later operation runs on the changed struct", l.p.Pos(ev.Instr.Pos()), x, st, ev.Instr)
 				}
 			}}
 		}, nil)
